@@ -352,9 +352,9 @@ def plan(tier: str) -> list[dict]:
         return ([{"mode": "machine", "n_min": 3, "n_max": 5, "examples": 150, "steps": 18, "cost": 4} for _ in range(5)]
                 + [{"mode": "machine", "n_min": 5, "n_max": 5, "sam_only": True, "examples": 60, "steps": 25, "cost": 5}]
                 + [{"mode": "exh3", "examples": 40, "cost": 3}])
-    return ([{"mode": "machine", "n_min": 3, "n_max": 5, "examples": 300, "steps": 25, "cost": 10} for _ in range(11)]
+    return ([{"mode": "machine", "n_min": 3, "n_max": 5, "examples": 1500, "steps": 25, "cost": 10} for _ in range(9)]
             + [{"mode": "machine", "n_min": 4, "n_max": 5, "sam_only": True, "examples": 250, "steps": 30, "cost": 10} for _ in range(2)]
-            + [{"mode": "exh3", "examples": 150, "cost": 8} for _ in range(2)]
+            + [{"mode": "exh3", "examples": 600, "cost": 8} for _ in range(2)]
             + [{"mode": "families", "cost": 10, "part": p, "parts": 3} for p in range(3)])
 
 
